@@ -238,7 +238,7 @@ def push_ac_status(rig, st) -> None:
     if rig.inst.ac_status.get(st.ac_number) != st:
         if st.error_code == 0:
             rig.client_err[st.ac_number] = None
-        elif not rig.console.manual:
+        elif not rig.console.manual and "error_info" not in rig.console.mute:
             # the client asks for the error text and the console answers with what it holds
             text = rig.inst.errors.get(st.ac_number)
             rig.client_err[st.ac_number] = text.encode() if text else None
